@@ -177,6 +177,16 @@ def r5(ctx):
     relabel(ctx, "C10.R5", c04.r3, lambda c: forward_data_context(c, "C10.R5", "context"), lambda c: forward_data_context(c, "C10.R5", "data"))
 
 
+def _r5_parts():
+    from .shared import relabel, forward_rule
+    from . import c04
+    from .c05 import forward_data_context
+    from .shared import relabel_parts
+    return relabel_parts("C10.R5", c04.r3, lambda c: forward_data_context(c, "C10.R5", "context"), lambda c: forward_data_context(c, "C10.R5", "data"))
+
+
+r5.parts = _r5_parts
+
 
 def f1(ctx):
     """generic same-name parameter forwarding over this property's modules (see shared.generic_forwarding)."""
